@@ -30,8 +30,8 @@ check("C10", "proof", "Complete: the environmental scores are functions of effec
       "Trusted: the M3/M7/M8 evaluators of the checker; for v4 the loop nest is covered through the classification of every value passed to severityDistance.", T_AST + "non-interference by symbolic formula trees (v3) and complete finite truth tables over (base, Modified) code pairs (v4)", "DESIGN §5 C10")
 check("C11", "other", "Every score return is rounded or 0, rounding bodies end in /10 of an integer-valued float, v3 caps, lookup literals one-decimal in [0,10], no reachable panic.",
       "Numeric range of the v2 arithmetic not decided.", T_AST + "return-leaf analysis of the canonical trees, table checks", "DESIGN §5 C11")
-check("C12", "other", "v2/v3: exhaustive exact-rational monotonicity of the canonical formula trees over all value combinations; v4: lookup along all 945 next-lower edges, severity orders; all weight tables.",
-      "Monotonicity of the v4 interpolation between MacroVectors and of float64 rounding not decided; v2/v3 equations decided in exact real arithmetic.", T_AST + "order checks over extracted tables against the specification severity orders", "DESIGN §5 C12")
+check("C12", "other", "Exhaustive exact-rational monotonicity: v2/v3 canonical formula trees over all value combinations (R12.real); v4 score model over 4.9 M single-metric steps x (level, distance) classes (R12.v4real); plus lookup edges, severity orders, weight tables.",
+      "Decided for the real-valued model of all versions; float64 rounding is covered by C03/C04 rules for v3/v4; v2 half-way ties are inherently open. v3.1 EnvironmentalScore over all E/RL/RC values in the thorough tier only.", T_AST + "order checks over extracted tables against the specification severity orders", "DESIGN §5 C12")
 check("C13", "other", "Headers pairwise prefix-incomparable and equal to the specification; header guard is the first statement; v2 starts at 'AV'.",
       "v2 clause relies on C01's loop.", T_AST + "constant comparison and guard-shape/dominance check", "DESIGN §5 C13")
 check("C14", "other", "Effect analysis: no writes to package-level state, only Set writes through *T, pool typestate, private buffer, concurrency census.",
